@@ -106,6 +106,14 @@ def main():
     }
     for pid in sorted(CHECKS):
         ref, text, tech = CHECKS[pid]
+        if pid in ('C01', 'C02', 'C03', 'C04', 'C05', 'C08', 'C09', 'C10'):
+            tech += '; whole programs (curated, seeded random, wide ones with reference-guided texts, the test suite\'s recorded builder ' \
+                    'trace for C02/C03) evaluated by TLC (PregexTerms) and histories of PregexHeap replayed the same way; layer-I ' \
+                    'theorems (PregexImpl PrecSafe, ImplInfer) checked by TLC on every state'
+        if pid in ('C06', 'C07'):
+            tech += '; class programs evaluated by TLC (PregexClassTerms), PregexHeap histories on shared class objects; model stages ' \
+                    'ImplClassText (C06: write/read round trip of class text) and ImplClassAlg (C07: interval loops under every order, ' \
+                    'with termination as a liveness property)'
         m['checks'].append({
             'property_id': pid,
             'quick_cmd': './vf check %s --tier quick' % pid,
